@@ -85,6 +85,10 @@ Drifted(e) ==
       r == O!OApply([op |-> e.op, p |-> e.p, q |-> e.q, c |-> e.c, f |-> e.f], ls0, pwo) IN
   ~(ClassAgrees(r.c, e.res.c) /\ LayerTree(e.layers[1]) = r.up /\ {x \in Range(e.wo) : x \in Universe} = r.wo)
 
+\* ------------------------------------------------------------ physical backing directory (C07)
+DiskTree(disk) == [p \in Universe |-> LayerNode(disk, p)]
+OnDisk(e) == DiskTree(e.disk) = TreeOfObs(e.obs)
+
 \* ------------------------------------------------------------ altroot (C07)
 \* observation with times and error paths stripped: what "same outcome, same effect" compares
 EntCore(x) == [p |-> x.p, ex |-> x.ex, md |-> [c |-> x.md.c, k |-> x.md.k, len |-> x.md.len], isf |-> x.isf, isd |-> x.isd,
@@ -161,6 +165,9 @@ BadCall(e, r) ==
              \cup (IF ObserversAgree(o) THEN {} ELSE {"observers"}))
   \cup (IF (e.res.c \in ErrClasses => EpOK(e.res.ep, e.p, q)) /\ ObsErrPathsOK(o) THEN {} ELSE {"errpath"})
   \cup (IF TimesOK(e, r) THEN {} ELSE {"times"})
+  \* C07 (PhysicalFS clause) / C01: what std::fs finds below the backing directory is exactly what the
+  \* filesystem shows - everything it created lies inside its root directory, and is really there
+  \cup (IF "disk" \in DOMAIN e /\ ~OnDisk(e) THEN {"ondisk"} ELSE {})
   \cup (IF cfg.kind = "ovl" /\ "layers" \in DOMAIN e
           THEN (IF LowerUnchanged(e) THEN {} ELSE {"lower"}) \cup (IF ObserversPure(e) THEN {} ELSE {"pure"})
           ELSE {})
@@ -187,7 +194,7 @@ IsEv(k) == l <= Len(Rec) /\ Rec[l].ev = k
 \* the totals are printed with DONE and end up in the evidence.
 CN == [init |-> 101, union |-> 102, view |-> 103, truth |-> 104, call |-> 105, spec_ok |-> 106, spec_fail |-> 107,
        pinned_class |-> 108, inv |-> 109, lower |-> 110, twin |-> 111, agree |-> 112, settime_ok |-> 113,
-       level_b |-> 114, fault |-> 115, fault_err |-> 116, fault_ok |-> 117, err_labelled |-> 118, observer_fault |-> 119]
+       level_b |-> 114, ondisk |-> 120, fault |-> 115, fault_err |-> 116, fault_ok |-> 117, err_labelled |-> 118, observer_fault |-> 119]
 Bump(i) == TLCSet(i, TLCGet(i) + 1)
 BumpIf(c, i) == IF c THEN Bump(i) ELSE TRUE
 Counters == [x \in DOMAIN CN |-> TLCGet(CN[x])]
@@ -213,7 +220,8 @@ TrSegInit ==
                 \cup (IF isovl /\ ~ObsMatches(o, Merge(e.layers, wo0)) THEN {"union"} ELSE {})
                 \cup (IF isalt /\ ObsCore(e.twinobs) # ObsCore(o) THEN {"view"} ELSE {})
                 \* C18: the embedded view equals the observation of a physical filesystem on the same folder
-                \cup (IF "truth" \in DOMAIN e /\ ~ObsMatches(o, TreeOfObs(e.truth)) THEN {"truth"} ELSE {}) IN
+                \cup (IF "truth" \in DOMAIN e /\ ~ObsMatches(o, TreeOfObs(e.truth)) THEN {"truth"} ELSE {})
+                \cup (IF "disk" \in DOMAIN e /\ ~OnDisk(e) THEN {"ondisk"} ELSE {}) IN
      /\ world' = w
      /\ cfg' = [kind |-> e.kind, name |-> e.cfg, sup |-> Range(e.sup), ro |-> e.ro,
                 prefix |-> IF "prefix" \in DOMAIN e THEN e.prefix ELSE <<>>]
@@ -258,6 +266,7 @@ TrCall ==
      /\ BumpIf(e.op = "set_time" /\ e.res.c = "ok", CN.settime_ok)
      /\ BumpIf(cfg.kind = "ovl" /\ "wo" \in DOMAIN e /\ lay # <<>> /\ e.op \in OvlOps /\ ~tainted /\ bad = {}, CN.level_b)
      /\ BumpIf(e.res.c \in ErrClasses, CN.err_labelled)
+     /\ BumpIf("disk" \in DOMAIN e, CN.ondisk)
      /\ IF bad = {} THEN TRUE
         ELSE Report("VIOL", [l |-> l, seg |-> seg, secondary |-> tainted, conjs |-> bad,
                              sig |-> Sig(CHOOSE c \in bad : TRUE, e, r)])
